@@ -24,6 +24,20 @@ type ChangeFn func(old, dst proto.Message) (proto.Message, error)
 // SaveFn is called to save the message in the external store.
 type SaveFn func(msg proto.Message)
 
+// publishInOrder wraps change so that, once the change has been computed and the write is about to be committed,
+// pubMu is taken and *locked is set. The caller keeps pubMu until it has published the write, which makes the order
+// of publications the order of commits. Reads and change callbacks of different writers still overlap.
+func publishInOrder(pubMu *sync.Mutex, locked *bool, change ChangeFn) ChangeFn {
+	return func(old, dst proto.Message) (proto.Message, error) {
+		res, err := change(old, dst)
+		if err == nil {
+			pubMu.Lock()
+			*locked = true
+		}
+		return res, err
+	}
+}
+
 // GetAndUpdate applies an atomic get and update operation in the context of proto messages.
 // mu.RLock will be held during the get call.
 // mu.Lock will be held during the save call.
